@@ -200,6 +200,10 @@ Check(e) ==
             IF \E x \in 1..Len(e.names) : e.names[x] = OutBase(tr.files[FileIdx(e.file)].base) \o e.ext THEN ""
             ELSE "output-file-name:" \o e.ext
       [] e.ev = "SameSeq" -> IF e.a = e.b THEN "" ELSE "prefix-changes:" \o e.what
+      [] e.ev = "CliTotal" ->
+            \* the command line is total too: a diagnostic and exit status 0 or 1, never a traceback
+            IF e.traceback THEN "cli-traceback:" \o e.what
+            ELSE IF e.exit \notin {0, 1} THEN "cli-exit-status" ELSE ""
       [] e.ev = "OutcomeType" ->
             \* C09 outcome typing: a schema, a parser error, or an OS error -- nothing else
             IF e.outcome \in {"accepted", "rejected", "oserror"} THEN ""
